@@ -54,7 +54,9 @@ Definition mean_fn (b : wbatch) : option Qc :=
   if Qc_eq_dec (wtot b) 0 then None else Some (wsum b / wtot b).
 (* @model mean_fn run_mean_fn *)
 Definition run_mean_fn (v : val) : val :=
-  match dec_wbatch v with Some b => if wb_valid b then vopt vq (mean_fn b) else verr "invalid" | None => vbad end.
+  match v with
+  | VL [_; bv] => match dec_wbatch bv with Some b => if wb_valid b then vopt vq (mean_fn b) else verr "invalid" | None => vbad end
+  | _ => vbad end.
 
 (* ---- Sum: state weighted_sum ---- *)
 Definition sum_beta (_ : unit) (b : wbatch) : nd := nvec [wsum b].
@@ -71,4 +73,6 @@ Definition sum_codec : Codec sum_metric :=
 Definition run_sum := run_pool sum_metric sum_codec.
 (* @model sum_fn run_sum_fn *)
 Definition run_sum_fn (v : val) : val :=
-  match dec_wbatch v with Some b => if wb_valid b then vq (wsum b) else verr "invalid" | None => vbad end.
+  match v with
+  | VL [_; bv] => match dec_wbatch bv with Some b => if wb_valid b then vq (wsum b) else verr "invalid" | None => vbad end
+  | _ => vbad end.
